@@ -398,6 +398,7 @@ def plan_C04(ctx):
     run_family(ctx, "conc_write", n_of(ctx, 16, 240), perfile=4)               # writers side by side (one-byte merge buffers, slow destinations)
     run_family(ctx, "card_boundary", n_of(ctx, 6, 24), perfile=1, seed_off=3)
     run_family(ctx, "big_stored", n_of(ctx, 2, 12), perfile=1)                      # megabytes of stored values inside one 128-document block
+    run_family(ctx, "aligned", n_of(ctx, 4, 16), perfile=2, seed_off=1)             # data section an exact multiple of 1 MiB / 64 KiB / 2 MiB
     run_family(ctx, "fault_load", n_of(ctx, 10, 200), perfile=10, seed_off=2)       # a Load that met a transient read failure and still succeeded
     run_family(ctx, "many_fields", n_of(ctx, 6, 60), perfile=2, seed_off=7)         # merged files whose location prefixes depend on field ids 127/128
     run_family(ctx, "big_dict_merge", n_of(ctx, 3, 30), perfile=1, seed_off=1)
@@ -517,6 +518,7 @@ def plan_C11(ctx):
     run_family(ctx, "faults_w", n_of(ctx, 2, 40), perfile=1, seed_off=3)     # the count returned = the bytes the destination received
     run_family(ctx, "faults_big", n_of(ctx, 2, 16), perfile=1)                # file-backed segment of several 64 KiB pieces
     run_family(ctx, "big_stored", n_of(ctx, 2, 12), perfile=1, seed_off=2)    # memory-backed segments of more than a megabyte
+    run_family(ctx, "aligned", n_of(ctx, 4, 16), perfile=2)                   # data section an exact multiple of 1 MiB / 64 KiB / 2 MiB
     run_family(ctx, "twin_persist", n_of(ctx, 40, 600), perfile=20)          # same layout, different content, persisted back to back
     run_family(ctx, "big_dict_merge", n_of(ctx, 3, 30), perfile=1)            # multi-kilobyte single writes after many small ones
     run_family(ctx, "roundtrip", n_of(ctx, 150, 3000), perfile=n_of(ctx, 10, 30), seed_off=7)
@@ -530,6 +532,7 @@ def plan_C12(ctx):
     for part in range(1 if ctx.quick else 3):
         run_family(ctx, "faults_w", n_of(ctx, 6, 40), perfile=n_of(ctx, 1, 2), seed_off=20 * part)
     run_family(ctx, "faults_big", n_of(ctx, 2, 16), perfile=1, seed_off=1)
+    run_family(ctx, "wide_tail", n_of(ctx, 2, 12), perfile=1)                 # > 1024 merged fields: close / failure points in the per-field tables at the end
     require_cov(ctx, "wfault_fail", "wfault_close", "wfault_nil_close")
 
 
